@@ -1,7 +1,7 @@
 """C06 Calls obey the System V x86-64 calling convention (DESIGN.md §3 C06)."""
 import re
 from ..build import AnalysisBroken
-from ..interp import Obj, View, Interp, Sym
+from ..interp import Obj, View, Interp, Sym, Unsupported, Cell as _Cell
 from ..chibi import CG, Trace, linearise
 from ..lib_abi import Builder, SCALARS, STRUCTS, GP_REGS, N_SSE, classify, assign_args, size_of, bytes_of, shift_addr, eightbyte_classes, CLASS_ONLY, NESTED, describe
 from ..x86 import Machine, Unknown, lo, ext, C
@@ -166,6 +166,12 @@ def check_call(rep, types, ret, depth0, ctx, tr, s, key, where):
                    'argument %d (%s, class %s) must be passed in memory at %d(%%rsp) at the call (psABI 3.2.3: registers exhausted or MEMORY class; long double is 16-byte aligned): %s' % (i, t, '/'.join(c), off, detail), where=where, facts=facts)
     rep.ob('R06.3', key + ':argument-area-size', nslots * 8 >= membytes and nslots * 8 - membytes <= 8 + (8 if any(t == 'ldouble' for t in types) else 0),
            'the argument area is %d bytes, the psABI layout of these arguments needs %d (+ alignment padding)' % (nslots * 8, membytes), where=where, facts=facts)
+    # psABI 3.2.3: the x87 register stack is empty at the call (long double arguments travel in memory; the callee may use all eight registers)
+    live = [x for x in st if not (isinstance(x, tuple) and x and x[0] == 'clobber')]
+    if 'R06.14' in rep.floors:
+        rep.ob('R06.14', key + ':x87-stack-empty-at-call', not live,
+               '%d value(s) are on the x87 register stack at the call instruction (%r): psABI 3.2.3 requires it empty on function entry - long double arguments are passed in memory - '
+               'the callee has fewer than eight registers and every pending value of a recursive activation costs one more' % (len(live), live[:2]), where=where, facts=facts)
     # after the call: everything pushed is released
     rep.ob('R06.3', key + ':argument-area-released', len(s.stack) == 0 and not [x for x in s.st if x[0] != 'clobber'] or len(s.stack) == 0,
            '%d stack slots pushed for the call are still allocated after it: every evaluation of this call moves %%rsp' % len(s.stack), where=where, facts=facts)
@@ -949,13 +955,163 @@ def r_callee_saved(P, rep):
     rep.ob('R06.8', 'codegen.c:templates:callee-saved-registers-untouched', not bad and n > 100, 'instruction templates write callee-saved registers: %r (templates scanned: %d)' % (bad[:3], n), where='codegen.c')
 
 
+def r_x87_empty_at_calls(P, rep, tier):
+    """psABI 3.2.3: the x87 register stack is empty at a call. The call instruction of ND_FUNCALL itself is decided by check_call; a call that
+    sits inside an operand is reached with whatever the enclosing arms hold on the x87 stack while they generate that operand: C20's effect
+    system records, per arm and child, the x87 height at which the child is generated (R20.12) - zero everywhere makes the stack empty at every
+    call by structural induction"""
+    from ..report import Report, reissue
+    from ..interp import Unsupported
+    from . import c20
+    where = '%s:gen_expr' % U
+    sub = Report('C20')
+    try:
+        c20.run(P, sub, tier)
+    except (AnalysisBroken, Unsupported) as e:
+        rep.undecided('R06.14', '%s:gen_expr:x87-height-of-children' % U, 'the x87 accounting of the code generator cannot be interpreted: %s' % e, where=where)
+        return
+    n = reissue(rep, 'R06.14', sub, 'psABI 3.2.3 requires the x87 register stack to be empty at a call: ', keep=lambda o: o['rule'] == 'R20.12')
+    if n < 40:
+        rep.undecided('R06.14', '%s:gen_expr:x87-height-of-children' % U, 'only %d arms of gen_expr / gen_stmt / gen_addr were decided by the x87 height analysis' % n, where=where)
+
+
+# declarations a redeclaration can meet: (has a parameter, ends in `...` / is `()`); chibicc writes `T f()` as no parameters + is_variadic
+_PROTO_SHAPES = {'unprototyped': (0, 1), 'one-parameter': (1, 0), 'void': (0, 0), 'one-parameter-ellipsis': (1, 1)}
+# (earlier declaration, new declaration): the pairs C11 6.7.6.3p15 makes compatible
+# (`T f(); T f(void);` and the reverse are left out: the two types differ only in which INVALID calls are diagnosed, no argument is passed either way)
+_PROTO_PAIRS = [('unprototyped', 'unprototyped'), ('unprototyped', 'one-parameter'), ('one-parameter', 'unprototyped'),
+                ('one-parameter', 'one-parameter'), ('void', 'void'), ('one-parameter-ellipsis', 'one-parameter-ellipsis')]
+
+
+def r_composite_prototype(P, rep):
+    """C11 6.5.2.2p7 converts the arguments of a call to the parameter types of the prototype of the called function, and 6.2.7p4 makes the type of
+    an identifier redeclared in the same scope the COMPOSITE of the declarations: after `long f(); long f(long x) {...}` (or a later prototype
+    declaration) every call sees the parameter list. funcall() reads the type through the identifier (Obj.ty: params, is_variadic), so after
+    function() has handled a redeclaration that type must carry the parameter list whenever the earlier or the new declaration has one. function()
+    is interpreted on an earlier declaration x a new declaration of each shape (unprototyped, (T), (void), (T, ...)), with and without a body"""
+    from ..chibi import CG
+    from ..interp import Unsupported
+    from .c15 import ParseEnv
+    rep.rule('R06.15', 'arguments are converted to the parameter types of the visible prototype: after a redeclaration of a function the type its calls are checked and converted against '
+                       '(Obj.ty as left by function()) is the composite of the declarations (C11 6.2.7p4) - it has the parameter list if the earlier or the new declaration has one', floor=12)
+    PU = 'parse.c'
+    pe = ParseEnv(P, CG(P))
+    u = pe.u
+    fd = u.fn('function')
+    trec = {f for f, t, b in (u.records.get('Type') or [])}
+    if fd is None or not {'params', 'is_variadic'} <= trec:
+        rep.undecided('R06.15', '%s:function:anchor' % PU, 'function() or Type.params / Type.is_variadic vanished: how a declaration records its parameter list is not known', where=PU); return
+    where = '%s:%d' % (PU, fd.line)
+    E = u.enums
+
+    def fin(it, v):
+        v = it.settle(v) if isinstance(v, View) else v
+        return int(v) if isinstance(v, bool) else v
+
+    def mktype(label, shape):
+        hasp, var = _PROTO_SHAPES[shape]
+        ty = Obj('Type', lazy=True, label=label)
+        ty.fields.update({'kind': E['TY_FUNC'], 'name': Obj('Token', lazy=True, label=label + '.name'), 'is_variadic': var,
+                          'params': Obj('Type', lazy=True, label=label + '.params') if hasp else 0})
+        ty.fields['params'] and ty.fields['params'].fields.update({'next': 0})
+        ty.meta['cat'] = 'func'
+        return ty
+
+    for old_s, new_s in _PROTO_PAIRS:
+        for isdef, olddef in ((0, 0), (0, 1), (1, 0)):
+            # a definition `T f() {...}` has no parameters: it is compatible with (void) and () only (6.7.6.3p15: the number of parameters agrees)
+            if (olddef and old_s == 'unprototyped' and new_s == 'one-parameter') or (isdef and new_s == 'unprototyped' and old_s == 'one-parameter'):
+                continue
+            key = '%s:function:redeclaration/%s%s-then-%s%s' % (PU, old_s, '-definition' if olddef else '', new_s, '-definition' if isdef else '')
+
+            def h_find(it, ctx, n, args):
+                return ctx.c06_old
+
+            def h_equal(it, ctx, n, args, isdef=isdef):
+                if args[0] is ctx.c06_tok and args[1] == '{':
+                    return isdef
+                if args[0] is ctx.c06_tok and isinstance(args[1], str):
+                    return 0
+                return View(_Cell([0, 1], ctx.fresh('equal')))
+
+            def h_consume(it, ctx, n, args, isdef=isdef):
+                if args[2] == ';':
+                    return 0 if isdef else 1
+                return View(_Cell([0, 1], ctx.fresh('consume')))
+
+            def h_decl(it, ctx, n, args):
+                return ctx.c06_new
+
+            def h_body(it, ctx, n, args):
+                return Obj('Node', lazy=True, label='body')
+            try:
+                it = pe.interp(('function', 'new_gvar', 'new_var'), opaque=('create_param_lvars', 'resolve_goto_labels'),
+                               cut={'find_func': h_find, 'equal': h_equal, 'consume': h_consume, 'declarator': h_decl, 'compound_stmt': h_body},
+                               globals_={'current_fn': lambda ctx: ctx.c06_cf0})
+
+                def mk(ctx, old_s=old_s, new_s=new_s, isdef=isdef, olddef=olddef):
+                    ctx.c06_tok = Obj('Token', lazy=True, label='tok')
+                    ctx.c06_oldty = mktype('earlier-type', old_s)
+                    ctx.c06_new = mktype('new-type', new_s)
+                    o = Obj('Obj', lazy=True, label='earlier-declaration')
+                    o.fields.update({'is_function': 1, 'is_definition': olddef, 'is_static': 0, 'is_inline': 0, 'is_inline_only': 0, 'is_root': 1, 'is_live': 0, 'ty': ctx.c06_oldty})
+                    ctx.c06_old = o
+                    ctx.c06_cf0 = 0 if isdef else View(_Cell([0, Obj('Obj', lazy=True, label='enclosing-function')], ctx.fresh('scope')))
+                    a = Obj('VarAttr', lazy=True, label='attr')
+                    a.fields.update({'is_static': 0, 'is_inline': 0, 'is_extern': 0, 'is_typedef': 0, 'is_tls': 0})
+                    return [ctx.c06_tok, Obj('Type', lazy=True, label='basety'), a]
+                res = it.explore('function', mk, max_paths=400)
+            except (AnalysisBroken, Unsupported) as e:
+                rep.undecided('R06.15', key, 'function() is not interpretable on a redeclaration: %s' % e, where=where); continue
+            rets = [(c, o) for c, o in res if o[0] == 'ret']
+            if not rets:
+                rep.undecided('R06.15', key, 'function() accepts this compatible redeclaration on no path (%r)' % ([o[:2] for c, o in res][:2],), where=where); continue
+            bad = und = None
+            for ctx, out in rets:
+                f = ctx.c06_old
+                ty = fin(it, f.fields.get('ty'))
+                if not isinstance(ty, Obj):
+                    und = 'the type of the function object after the redeclaration is %r' % (ty,); continue
+                pr = fin(it, ty.fields.get('params', 0)); var = fin(it, ty.fields.get('is_variadic', 0))
+                oldp, newp = ctx.c06_oldty.fields['params'], ctx.c06_new.fields['params']
+                oldv, newv = ctx.c06_oldty.fields['is_variadic'], ctx.c06_new.fields['is_variadic']
+                if old_s == 'unprototyped':
+                    want = [(newp, newv)]
+                elif new_s == 'unprototyped':
+                    want = [(oldp, oldv)]
+                else:
+                    want = [(oldp, oldv), (newp, newv)]
+                if not isinstance(var, int) or not (isinstance(pr, Obj) or pr == 0):
+                    und = 'params / is_variadic of the function type are %r / %r after the redeclaration' % (pr, var); continue
+                if any(pr is wp and var == wv for wp, wv in want):
+                    continue
+                if isinstance(pr, Obj) and pr is not oldp and pr is not newp:
+                    und = 'the parameter list after the redeclaration is an object of neither declaration (%r)' % (pr,); continue
+                had = 'no parameter list' if pr == 0 and var else ('the parameter list (void)' if pr == 0 else 'a parameter list')
+                bad = ('after `T f%s%s` follows `T f%s%s`: the type calls of f are checked and converted against has %s%s afterwards; C11 6.2.7p4: the composite type has the parameter list of the %s declaration. '
+                       'Arguments of later calls are not converted to the parameter type (`long f(); long f(long x) {...} f(2.5)` passes 2.5 in %%xmm0, the callee reads %%rdi), or calls the prototype allows are rejected / calls it forbids accepted'
+                       % (_shape_doc(old_s), ' {...}' if olddef else ';', _shape_doc(new_s), ' {...}' if isdef else ';', had, ' and `...`' if pr != 0 and var else '', 'new' if old_s == 'unprototyped' else 'earlier'))
+            if bad is None and und is not None:
+                rep.undecided('R06.15', key, und, where=where); continue
+            rep.ob('R06.15', key + ':type-is-composite', bad is None, bad or '', where=where, facts={'earlier': old_s, 'new': new_s, 'paths': len(rets)})
+
+
+def _shape_doc(s):
+    return {'unprototyped': '()', 'one-parameter': '(long)', 'void': '(void)', 'one-parameter-ellipsis': '(long, ...)'}[s]
+
+
 def run(P, rep, tier):
     cg = wrap(CG(P))
     B = Builder(P)
     rep.explanation = ('The calling convention is decided over the domain the property quantifies over: argument class (INTEGER, SSE, X87, MEMORY, every mixed two-eightbyte aggregate shape) x '
                        'position relative to register exhaustion (0..7 INTEGER, 0..9 SSE registers already used) x stack parity. For each cell the code generator is interpreted on a concrete call node, '
                        'the emitted sequence is evaluated by the term machine up to the call instruction, and the location of every argument byte is compared with an independent psABI 3.2.3 oracle.')
+    rep.explanation += (' The x87 register stack is empty at every call: at the call instruction of each call cell, and (C20 effect system, re-issued) no arm generates a child with a value of its own pending on it.'
+                        ' function() is interpreted on every compatible pair (earlier declaration, redeclaration) of prototype shapes: the type calls are converted against is the composite.')
     rep.assumptions += ['psABI x86-64 1.0 section 3.2.3 as transcribed in sa/lib_abi.py', 'gen_expr of each argument satisfies its contract', 'aggregate shapes: the flat, nested (member structs, arrays, arrays of structs, multi-dimensional arrays), union, padding-eightbyte and packed layouts of sa/lib_abi.py STRUCTS']
+    rep.rule('R06.14', 'the x87 register stack is empty at every call instruction (psABI 3.2.3: empty on function entry; a callee may use all eight registers and returns a long double in %st(0)): '
+                       'at the call of ND_FUNCALL for every argument class, and no arm of gen_expr / gen_stmt / gen_addr keeps a value of its own on the x87 stack while one of its children - which may '
+                       'contain a call - is generated (same obligations as C20 R20.12)', floor=100)
     r_caller(cg, B, rep, tier)
     r_callee(cg, B, rep, tier)
     r_returns(cg, B, rep)
@@ -974,6 +1130,8 @@ def run(P, rep, tier):
     r_callee_saved(P, rep)
     r_helper_calls(cg, B, rep)
     r_header_hygiene(P, rep)
+    r_x87_empty_at_calls(P, rep, tier)
+    r_composite_prototype(P, rep)
     # C11 6.5.2.2p7 / psABI: the callee reads a parameter in the representation of the PARAMETER type, so the caller must have converted the
     # argument (a char passed for a _Bool must arrive as 0/1, a float passed to `...` as a double): lib_exprparse's funcall rules, re-used
     from ..lib_exprparse import r_conversion_sites
